@@ -96,6 +96,10 @@ pub fn valid_ident(s: &str) -> bool {
     if !cs.all(|c| c.is_alphanumeric() || c == '_') {
         return false;
     }
+    // `AS` followed by a digit is the start of an AS number literal, whatever follows
+    if s.starts_with("AS") && s[2..].starts_with(|c: char| c.is_ascii_digit()) {
+        return false;
+    }
     !KW.contains(&s)
 }
 
